@@ -72,4 +72,27 @@ def StreamState.feed (s : StreamState) (chunk : List UInt8) : StreamState :=
 
 def feedAll (chunks : List (List UInt8)) : StreamState := chunks.foldl StreamState.feed .init
 
+/-- A caller may also interleave appends and single scanner calls in any order. -/
+inductive StreamOp where
+  | append (chunk : List UInt8)
+  | scanOnce
+  deriving Repr
+
+def StreamState.step (s : StreamState) : StreamOp → StreamState
+  | .append c => { s with buf := s.buf ++ c }
+  | .scanOnce =>
+    let r := scan s.buf
+    { buf := s.buf.drop r.1, delivered := s.delivered ++ r.2.toList, consumed := s.consumed + r.1 }
+
+/-- after the last piece: drain what is left -/
+def StreamState.finish (s : StreamState) : StreamState :=
+  let r := drainAll s.buf
+  { buf := r.2, delivered := s.delivered ++ r.1, consumed := s.consumed + (s.buf.length - r.2.length) }
+
+/-- the bytes appended by a schedule, in order -/
+def appended : List StreamOp → List UInt8
+  | [] => []
+  | .append c :: rest => c ++ appended rest
+  | .scanOnce :: rest => appended rest
+
 end Rtcm
